@@ -126,6 +126,13 @@ func NewEngine(repo string, patterns []string, specPaths []string) (*Engine, err
 	for _, l := range e.spec.Lemmas {
 		e.lemmas[l.Name] = l
 	}
+	for _, n := range e.spec.OpaqueNames {
+		if s := e.specFns[n]; s != nil {
+			s.Opaque = true
+		} else {
+			return nil, fmt.Errorf("opaque %s: no such spec function", n)
+		}
+	}
 	// every contract must name an existing function
 	var missing []string
 	for k, fs := range e.spec.Funcs {
@@ -166,6 +173,14 @@ func (e *Engine) evalType(pkg string, text string) (types.Type, error) {
 		return types.Typ[types.Bool], nil
 	case "string":
 		return types.Typ[types.String], nil
+	}
+	if strings.HasPrefix(text, "array[") && strings.HasSuffix(text, "]") {
+		// spec-only type: the contents of a backing array, an SMT array Int -> T
+		et, err := e.evalType(pkg, text[6:len(text)-1])
+		if err != nil {
+			return nil, err
+		}
+		return types.NewArray(et, 0), nil
 	}
 	tp := e.pkgByNm[pkg]
 	if tp == nil {
